@@ -202,7 +202,27 @@ def f_upper_ext(pkg, rng):
     return f"upper-ext:{old}"
 
 
-FAULTS = [f_dangle, f_drop_rels, f_no_core, f_case, f_unknown_ct, f_extra, f_rename_slides, f_upper_ext]
+def f_empty_part(pkg, rng):
+    """a reachable part of ZERO length (an empty printer-settings or custom binary part): present, so it is loaded and
+    preserved - not the same as an absent target"""
+    srcs = [s for s in pkg["rels"] if s.endswith(".xml")]
+    if not srcs:
+        return None
+    s = rng.choice(srcs)
+    n = "/ppt/printerSettings/printerSettingsE%d.bin" % rng.randint(1, 99)
+    if n in pkg["members"]:
+        return None
+    pkg["members"][n] = b""
+    if not any(e.lower() == "bin" for e, _ in pkg["defaults"]):
+        pkg["defaults"] = list(pkg["defaults"]) + [("bin", "application/vnd.openxmlformats-officedocument.presentationml.printerSettings")]
+    rid = "rId%d" % (700 + rng.randint(0, 99))
+    if any(r[0] == rid for r in pkg["rels"][s]):
+        return None
+    pkg["rels"][s] = pkg["rels"][s] + [(rid, "http://schemas.openxmlformats.org/officeDocument/2006/relationships/printerSettings", n, False)]
+    return f"empty-part@{s}"
+
+
+FAULTS = [f_dangle, f_drop_rels, f_no_core, f_case, f_unknown_ct, f_extra, f_rename_slides, f_upper_ext, f_empty_part]
 
 
 def model_line_for(pkg):
